@@ -454,6 +454,11 @@ MODEL_FILES = {
               "data": "empty", "phase": "none", "_fill": "F2d"},
     "Fdark3": {"photon": "none", "pixel": "none", "signal": "set", "image": "none", "charge": "zero", "scene": "none",
                "data": "empty", "phase": "none", "_fill": "F3d"},
+    # the file's photon container is of the OTHER kind (2-D / multi-wavelength) than the running detector's
+    "F3on2": {"photon": "3d", "pixel": "set", "signal": "set", "image": "u32", "charge": "clusters", "scene": "one",
+              "data": "nested", "phase": "set", "_fill": "F2d"},
+    "F2on3": {"photon": "2d", "pixel": "set", "signal": "set", "image": "u16", "charge": "array", "scene": "one",
+              "data": "one", "phase": "set", "_fill": "F3d"},
     # pixel and signal (and phase) of the stored detector were assigned ONE array object
     "Falias": {"photon": "2d", "pixel": "set", "signal": "set", "image": "u16", "charge": "array", "scene": "none",
                "data": "one", "phase": "set", "_alias": True},
